@@ -20,7 +20,7 @@ def records(obj):
     for name in ("spike_", "current_", "pos_current_", "neg_current_", "data_"):
         r = getattr(obj, name, None)
         if r is not None and hasattr(r, "recordsz"):
-            out[name] = (r.dt, r.duration, r.inclusive, r.recordsz, None if r.value is None else tuple(r.value.shape))
+            out[name] = (r.dt, r.duration, r.inclusive, r.recordsz, None if r.value is None else tuple(r.value.shape), None if r.value is None else str(r.value.dtype))
     return out
 
 
